@@ -385,3 +385,45 @@ theorem pd_none (R : DateTime) (s : Nat) (tx : Str) :
   rfl
 
 end RTV.DtPeriod
+
+/-! ### `get_range_timex_components` on a clean triple -/
+namespace RTV.DtPeriod
+open RTV.Cal RTV.DateUtils RTV.WF RTV.Periods
+
+/-- no parenthesis, no comma -/
+def clean (s : Str) : Prop := ∀ x ∈ s, x ≠ 40 ∧ x ≠ 41 ∧ x ≠ 44
+
+theorem removeCh_id (c : Nat) (s : Str) (h : ∀ x ∈ s, x ≠ c) : removeCh c s = s := by
+  unfold removeCh
+  rw [List.filter_eq_self]
+  intro x hx
+  simp [h x hx]
+
+theorem rangeComponents_triple (a b p : Str) (ha : clean a) (hb : clean b) (hp : clean p) :
+    rangeComponents (triple a b p) = some (a, b, p) := by
+  have e1 : removeCh 40 (triple a b p) = a ++ [44] ++ b ++ [44] ++ p ++ [41] := by
+    unfold triple
+    simp only [removeCh, List.filter_append]
+    have fa := removeCh_id 40 a (fun x hx => (ha x hx).1)
+    have fb := removeCh_id 40 b (fun x hx => (hb x hx).1)
+    have fp := removeCh_id 40 p (fun x hx => (hp x hx).1)
+    unfold removeCh at fa fb fp
+    rw [fa, fb, fp]
+    simp
+  have e2 : removeCh 41 (a ++ [44] ++ b ++ [44] ++ p ++ [41]) = a ++ [44] ++ b ++ [44] ++ p := by
+    simp only [removeCh, List.filter_append]
+    have fa := removeCh_id 41 a (fun x hx => (ha x hx).2.1)
+    have fb := removeCh_id 41 b (fun x hx => (hb x hx).2.1)
+    have fp := removeCh_id 41 p (fun x hx => (hp x hx).2.1)
+    unfold removeCh at fa fb fp
+    rw [fa, fb, fp]
+    simp
+  unfold rangeComponents
+  rw [e1, e2]
+  have hs : splitOn 44 (a ++ [44] ++ b ++ [44] ++ p) = [a, b, p] := by
+    have : a ++ [44] ++ b ++ [44] ++ p = a ++ 44 :: (b ++ 44 :: p) := by simp
+    rw [this, splitOn_append 44 _ _ (fun x hx => (ha x hx).2.2), splitOn_append 44 _ _ (fun x hx => (hb x hx).2.2),
+      splitOn_no_sep 44 _ (fun x hx => (hp x hx).2.2)]
+  rw [hs]
+
+end RTV.DtPeriod
